@@ -11,7 +11,7 @@ FLAGSETS = {
                                               '-D_GLIBCXX_ASSERTIONS', '-fno-access-control'],
                  ldflags=['-fsanitize=address,undefined'],
                  env={'ASAN_OPTIONS': 'detect_leaks=0:abort_on_error=1:detect_stack_use_after_return=1:allocator_may_return_null=1:max_allocation_size_mb=512',
-                      'UBSAN_OPTIONS': 'print_stacktrace=1:halt_on_error=1'}),
+                      'UBSAN_OPTIONS': 'print_stacktrace=1:halt_on_error=1:abort_on_error=1'}),
 }
 
 FLAGSETS['asanrec'] = dict(cxx='g++', cflags=_COMMON + ['-O1', '-fsanitize=address', '-fsanitize-recover=address', '-fno-sanitize-address-use-after-scope',
@@ -67,3 +67,14 @@ CHECKS['C11'] = dict(_FS, level_text='same closed state space; every in-domain t
     rule='same search as C10; oracle: for every in-domain argument tuple (std::string counterpart defined, non-empty operands for the find family/starts_with/ends_with/contains, no end()-insertions which the class documents as no-ops) '
          'mutators leave str()/length()/c_str() equal to the std::string result cut at L, observers return the std::string value; ==/!= complementary; non-trivial = distinct reachable object images',
     assumptions=['content alphabet {a,b}', 'behaviours pinned by the in-tree test_fixed_string that differ from std::string are excluded (listed in DESIGN.md)'])
+
+CHECKS['C12'] = dict(title='Dynamic bitset behaves like a growable reference bit vector', engine='xstate',
+    harness=['harness/c12_bitset.cpp'], flags='asan', lib=True, level='model_checking', deadline={'quick': 120, 'thorough': 1500}, hang_s=60,
+    technique='explicit-state model checking of the real object: every bitset state up to a size bound x complete operation/position/operand alphabet against a hand-written set model',
+    level_text='all states (size, set of positions) with size <= 5 (quick) / <= 9 (thorough) are expanded with every operation, position 0..size+2, shift 0..size+2 and every operand bitset of size <= 4 / <= 6; the state graph is closed for these sizes, so operation sequences of any length that stay within the size bound are covered',
+    level_note='trusts the 40-line set-arithmetic reference, AddressSanitizer and libstdc++ debug assertions (bit-level bounds of vector<bool>); sizes beyond the bound are only reached as transition targets',
+    rule='state = (size, set positions) of a real DynamicBitset built through its public interface; transition = one operation with one argument; after every transition all observers (test for every position, count, any, none, all, to_string, to_ulong, 5 iteration forms) are compared with the reference content; compound vs binary operators compared directly; non-trivial = distinct states expanded',
+    bound={'quick': 'states with size <= 5 (63 states), operands size <= 4, positions/shifts 0..size+2, to_ulong bits 60..66',
+           'thorough': 'states with size <= 9 (1023 states), operands size <= 6'},
+    assumptions=['growth is judged by content and by size >= position+1, never by the growth factor', 'reset() is judged by content (all bits clear), not by the resulting size',
+                 'undefined behaviour without observable effect (1L << 63) is not reported'])
